@@ -104,6 +104,30 @@ def job_broadcast(job):
                 exp[idx] = newvals[j]
                 if not np.array_equal(np.array(v, dtype=float), exp):
                     fail({'config': cfg, 'what': 'setitem changed other entries or missed the addressed one', 'index': list(idx), 'a_keys': list(ak), 'backing': backing})
+            # (2b) ndarray-backed multivector: basic and advanced (list / mask / slice) index expressions on the trailing axes
+            n0 = shape[0]
+            forms = [slice(0, n0, 2), [0, n0 - 1], np.array([n0 - 1, 0]), np.arange(n0) % 2 == 0, Ellipsis, -1]
+            if len(shape) > 1:
+                forms += [(slice(None), [0, shape[1] - 1]), ([0, n0 - 1], 1)]
+            for form in forms:
+                base = np.array([np.arange(int(np.prod(shape)), dtype=float).reshape(shape) + 100 * j for j in range(len(ak))])
+                c2 = MultiVector.fromkeysvalues(alg, tuple(ak), base.copy())
+                ref = base.copy()
+                idxt = form if isinstance(form, tuple) else (form,)
+                sel_shape = ref[(0, *idxt)].shape
+                newv = [np.full(sel_shape, -7.0 - j) if sel_shape else -7.0 - j for j in range(len(ak))]
+                out['evaluations'] += 1
+                try:
+                    c2[form] = newv
+                    for j in range(len(ak)):
+                        ref[(j, *idxt)] = newv[j]
+                    if not np.array_equal(np.array(c2.values(), dtype=float), ref):
+                        fail({'config': cfg, 'what': 'assignment through an ndarray-backed multivector did not touch exactly the addressed entries', 'index': repr(form)[:60], 'shape': list(shape)})
+                    got = c2[form]
+                    if not np.array_equal(np.array(got.values(), dtype=float), ref[(slice(None), *idxt)]):
+                        fail({'config': cfg, 'what': 'indexing an ndarray-backed multivector returned other entries than addressed', 'index': repr(form)[:60], 'shape': list(shape)})
+                except Exception as e:
+                    fail({'config': cfg, 'what': 'indexing / assignment with a valid numpy index raised', 'index': repr(form)[:60], 'error': repr(e)[:120]})
             # (3) numbers, lists, tuples, callables on either side keep their side
             x = MultiVector.fromkeysvalues(alg, tuple(ak), frac_vals(rng, ak))
             y = MultiVector.fromkeysvalues(alg, tuple(bk), frac_vals(rng, bk))
